@@ -7,6 +7,7 @@ import (
 	"sort"
 	"strconv"
 	"strings"
+	"syscall"
 	"time"
 
 	"github.com/vektah/gqlparser/v2/ast"
@@ -154,6 +155,23 @@ func (s *Shared) PlanFeasible(doc *ast.QueryDocument, c Case) bool {
 	return true
 }
 
+// silenced runs f with file descriptor 2 pointing at /dev/null.
+func silenced(f func()) {
+	old, err := syscall.Dup(2)
+	null, err2 := os.OpenFile(os.DevNull, os.O_WRONLY, 0)
+	if err != nil || err2 != nil {
+		f()
+		return
+	}
+	syscall.Dup2(int(null.Fd()), 2)
+	defer func() {
+		syscall.Dup2(old, 2)
+		syscall.Close(old)
+		null.Close()
+	}()
+	f()
+}
+
 // RunCase executes one case on the default schedule under the controlled runtime.
 func (s *Shared) RunCase(c Case, doc *ast.QueryDocument) (*Inst, *explore.Exec) {
 	in := s.NewInst(c, doc)
@@ -264,8 +282,15 @@ func (s *Shared) RunMass(spec MassSpec, shard, nshard int, deadline time.Time) M
 		if !s.PlanFeasible(doc, c) {
 			continue // this configuration's Go types cannot express the plan
 		}
-		c.Intercept = spec.Intercept
-		in, x := s.RunCase(c, doc)
+		c.Intercept = spec.Intercept && !c.DefaultRecover
+		var in *Inst
+		var x *explore.Exec
+		if c.DefaultRecover {
+			// gqlgen's DefaultRecover prints the panic and a stack trace to stderr
+			silenced(func() { in, x = s.RunCase(c, doc) })
+		} else {
+			in, x = s.RunCase(c, doc)
+		}
 		res.Cases++
 		res.Nontrivial++
 		if sig, msg := in.CheckSemantics(x); sig != "" {
